@@ -31,13 +31,22 @@ def normal_form(text, tmod):
             for a in node.names:
                 imports.add(a.name)
     funcs = {}
+    collided = se.collided_closure()
+    tainted = set()  # positions whose annotation names a generated TypedDict class that is defined twice (listed finding)
+
+    def taint(node, where):
+        if node is not None and collided and any(c in ast.unparse(node) for c in collided):
+            tainted.add(where)
+
     for q, info in se.funcs.items():
         sig = []
         for name, kind, node, has_def in info.params():
             t = se.ann_rt(node, f"{q}({name})") if node is not None else None
+            taint(node, f"{q}({name})")
             sig.append((name, kind, has_def, RT.show(t) if t is not None else (None if node is None else "UNRESOLVED:" + ast.unparse(node))))
         r = info.node.returns
         t = se.ann_rt(r, f"{q}(return)") if r is not None else None
+        taint(r, f"{q}(return)")
         funcs[q] = {"params": sig, "returns": RT.show(t) if t is not None else (None if r is None else "UNRESOLVED:" + ast.unparse(r)),
                     "decorators": info.decorators, "async": info.is_async}
     order = []
@@ -48,7 +57,8 @@ def normal_form(text, tmod):
                 order += [f"{node.name}.{x.name}" if hasattr(x, "name") else f"{node.name}.{x.target.id}" for x in node.body if hasattr(x, "name") or isinstance(x, ast.AnnAssign)]
         elif isinstance(node, ast.ImportFrom):
             order += [f"import {node.module}.{a.name}" for a in node.names]
-    return {"imports": sorted(imports), "classes": sorted(se.class_defs), "functions": funcs, "order": order}, se
+    return {"imports": sorted(imports), "classes": sorted(se.class_defs), "functions": funcs, "order": order, "tainted": sorted(tainted),
+            "collided": sorted(collided)}, se
 
 
 def diff_nf(a, b):
@@ -59,17 +69,26 @@ def diff_nf(a, b):
         if a[key] != b[key]:
             out.append(f"{key}: {sorted(set(a[key]) ^ set(b[key]))}")
     if a["order"] != b["order"] and sorted(a["order"]) == sorted(b["order"]):
-        out.append("order of definitions / imports in the stub text differs")
+        names = set(a.get("collided", ())) | set(b.get("collided", ()))
+
+        def drop(order):
+            return [x for x in order if x.split(".")[0] not in names]
+
+        if names and drop(a["order"]) == drop(b["order"]):
+            out.append("COLLISION order of the same-named generated TypedDict classes differs")
+        else:
+            out.append("order of definitions / imports in the stub text differs")
     for q in sorted(set(a["functions"]) | set(b["functions"])):
         fa, fb = a["functions"].get(q), b["functions"].get(q)
         if fa is None or fb is None:
             out.append(f"function {q} present in only one variant")
         elif fa != fb:
+            taintset = set(a.get("tainted", ())) | set(b.get("tainted", ()))
             for pa, pb in zip(fa["params"], fb["params"]):
                 if pa != pb:
-                    out.append(f"{q}({pa[0]}): {pa[3]} vs {pb[3]}")
+                    out.append(("COLLISION " if f"{q}({pa[0]})" in taintset else "") + f"{q}({pa[0]}): {pa[3]} vs {pb[3]}")
             if fa["returns"] != fb["returns"]:
-                out.append(f"{q}(return): {fa['returns']} vs {fb['returns']}")
+                out.append(("COLLISION " if f"{q}(return)" in taintset else "") + f"{q}(return): {fa['returns']} vs {fb['returns']}")
     return out
 
 
@@ -120,8 +139,20 @@ def work(p):
         tup = gm.FuncSpec(97, "tuple_family", [], "module", "plain")
         tup.params = [gm.Param("t", "normal", vals=["(1,)", "(1, 2)", "(1, 2, 3)", "('a',)", "('a', 'b')", "('a', 'b', 'c')", "(1, 2, 3, 4)"])]
         tup.ret_vals = ["1"]
-        m.funcs += [fam, tdf, tup]
-        m.classes.setdefault((), []).extend([fam, tdf, tup])
+        abcf = gm.FuncSpec(96, "abc_family", [], "module", "plain")
+        abcf.params = [gm.Param("h", "normal", vals=["AH1()", "AH2()", "AH3()", "AH4()", "AH5()", "AH6()"])]
+        abcf.ret_vals = ["AH2()", "AH1()", "AH4()", "AH3()", "AH6()", "AH5()"]
+        extra = [fam, tdf, tup, abcf]
+        if spec.get("collide"):
+            # pinned witness of the listed finding: two functions share a parameter name and get differently shaped dicts
+            for nm, val in (("tc_a", "{'x': 1}"), ("tc_b", "{'y': 's'}")):
+                f = gm.FuncSpec(90 + len(extra), nm, [], "module", "plain")
+                f.params = [gm.Param("cfg", "normal", vals=[val])]
+                f.ret_vals = ["1"]
+                extra.append(f)
+            res.count("collision_witness_sets")
+        m.funcs += extra
+        m.classes.setdefault((), []).extend(extra)
         m.render()
         try:
             tmod, path = modrun.load(d, m)
@@ -129,7 +160,8 @@ def work(p):
             res.violation("harness:module-does-not-import", repr(e), {"source": m.source})
             continue
         k = spec["k"]
-        plan = m.call_plan(rng, None, ncalls=(4, 12)) + [(fam, [v], {}) for v in fam.params[0].vals] + [(tdf, [v], {}) for v in tdf.params[0].vals] + [(tup, [v], {}) for v in tup.params[0].vals]
+        plan = m.call_plan(rng, None, ncalls=(4, 12)) + [(fam, [v], {}) for v in fam.params[0].vals] + [(tdf, [v], {}) for v in tdf.params[0].vals] + [(tup, [v], {}) for v in tup.params[0].vals] + [(abcf, [v], {}) for v in abcf.params[0].vals]
+        plan += [(f, [f.params[0].vals[0]], {}) for f in extra[4:]]
         traces = modrun.trace_plan(tmod, path, m, plan, k)
         uniq = []
         seen = set()
@@ -183,6 +215,11 @@ def work(p):
                 any_text_diff = True
                 res.count("pairs_with_different_text")
             dd = diff_nf(base, nf)
+            coll = [x for x in dd if x.startswith("COLLISION ")]
+            dd = [x for x in dd if not x.startswith("COLLISION ")]
+            if coll:
+                res.violation("typeddict-class-name-collision", f"{m.name} k={k} {spec['rewriter']}: variants {base_v} and {v} differ: {coll[0][:300]}",
+                              {"spec": spec, "variants": [base_v, v], "diff": coll[:6]})
             if dd:
                 key = "stub-depends-on-order-or-process"
                 if any("R1" in x and "R2" in x for x in dd) or any(("R1" in x) != ("R2" in x) and ("X1" in x or "Union" in x or "R" in x) for x in dd):
@@ -204,10 +241,13 @@ def run(ck):
     nvar = 8 if quick else 24
     specs = [{"name": f"vfm14_{ck.seed}_{i}", "seed": f"C14:{ck.seed}:{i}", "k": [0, 3][i % 2], "rewriter": ["DEFAULT", "NoOpRewriter"][(i // 2) % 2], "variants": nvar,
               "nfuncs": 8, "tight_limit": i % 4 == 3} for i in range(nsets)]
+    specs.insert(0, {"name": f"vfm14_pinned_{ck.seed}", "seed": "C14:pinned", "k": 3, "rewriter": "NoOpRewriter", "variants": nvar, "nfuncs": 2, "collide": True})
+    nsets += 1
     n = min(core.NPROC, nsets)
     for r in core.pmap("vf.props.c14:work", [{"sets": specs[i::n]} for i in range(n)], timeout=3400):
         ck.merge(r)
     ck.need("variant_pairs", 60)
+    ck.need("collision_witness_sets", 1)
     ck.need("tight_limit_variants", 8)
     ck.need("sets_where_union_order_differed", 3, "no pair of variants in which a union's member order actually differed")
     return ck.finish(
